@@ -12,13 +12,19 @@
 (*                 more bytes than the end of the value that completes     *)
 (*                 skip+take rows plus a constant (C14)                    *)
 (* Drift (never gating): the implementation-shaped machine must print the  *)
-(* same rows and consume the same number of values.                        *)
+(* same rows and consume the same number of values, and - with the         *)
+(* jawk_verif hook - make the same start / process / complete calls across *)
+(* every stage boundary, with the same rows and the same answers.          *)
 (***************************************************************************)
 EXTENDS TraceLib, CoreExpr
 
 P == INSTANCE Pipeline WITH Ev <- CoreEv, DevLimiterNoComplete <- FALSE, DevPopOldest <- FALSE, DevTruncAll <- FALSE,
                             DevSwallowBreak <- FALSE, DevSplitLast <- FALSE, DevSortBreakStops <- FALSE, DevSortEmptyNoComplete <- FALSE,
-                            DevSpaceCountsKeyless <- FALSE
+                            DevSpaceCountsKeyless <- FALSE, LogCalls <- FALSE
+\* the same machine recording its calls (compared with the calls the jawk_verif hook recorded in the code)
+PL == INSTANCE Pipeline WITH Ev <- CoreEv, DevLimiterNoComplete <- FALSE, DevPopOldest <- FALSE, DevTruncAll <- FALSE,
+                             DevSwallowBreak <- FALSE, DevSplitLast <- FALSE, DevSortBreakStops <- FALSE, DevSortEmptyNoComplete <- FALSE,
+                             DevSpaceCountsKeyless <- FALSE, LogCalls <- TRUE
 R == INSTANCE Rfc8259 WITH DoubleOf <- TraceDoubleOf
 
 VARIABLE l
@@ -41,6 +47,20 @@ Collected(cfg, rows) == CASE cfg.group.k = "none" -> rows
                           [] cfg.group.k = "merge" -> <<Arr(rows)>>
                           [] cfg.group.k = "by" -> <<GroupOfRows(rows, cfg.group.e)>>
 
+\* the calls across stage boundaries that the hook recorded (r.calls: [ev, i, k, row, n, res], row a value or Nothing) against the machine's log
+SameCall(a, b) == a.ev = b.ev /\ a.i = b.i /\ a.k = b.k /\ a.n = b.n /\ a.res = b.res
+                  /\ (IF a.row = Nothing \/ b.row = Nothing THEN a.row = b.row ELSE JSame(a.row, b.row))
+CheckCalls(r) ==
+  LET want == PL!StartLog(PL!Chain(r.cfg)) \o PL!MachineRun(r.cfg, r.input).st.log
+      got == r.calls
+      n == Min2(Len(want), Len(got))
+  IN IF \E k \in 1..n : ~SameCall(got[k], want[k])
+     THEN LET k == CHOOSE k \in 1..n : ~SameCall(got[k], want[k]) /\ \A j \in 1..(k - 1) : SameCall(got[j], want[j]) IN
+          Flag("DRIFT", r.case, <<"stage calls differ from the machine at call", k, "code", [ev |-> got[k].ev, i |-> got[k].i, k |-> got[k].k, res |-> got[k].res],
+                                  "machine", [ev |-> want[k].ev, i |-> want[k].i, k |-> want[k].k, res |-> want[k].res]>>)
+     ELSE IF Len(want) # Len(got) THEN Flag("DRIFT", r.case, <<"stage calls: the code made", Len(got), "calls, the machine", Len(want)>>)
+     ELSE TRUE
+
 CheckRef(r) ==
   LET o == ParseOut(r.out, r.sep)
       ref == P!Ref(r.cfg, r.input) \o <<>>
@@ -50,6 +70,7 @@ CheckRef(r) ==
      ELSE IF ~P!SameRows(o.rows, ref) THEN Flag("MISMATCH", r.case, FirstDiff(o.rows, ref))
      ELSE LET m == P!MachineRun(r.cfg, r.input) IN
           IF ~P!SameRows(m.st.out, o.rows) THEN Flag("DRIFT", r.case, "machine prints other rows than the code")
+          ELSE IF "calls" \in DOMAIN r THEN CheckCalls(r)
           ELSE TRUE
 
 CheckRel(r) ==
